@@ -65,9 +65,12 @@ claimed = {
             'replacement for growth and shrink, prefix split, collapse with prefix prepend) preserve well-formedness, change the '
             'abstract map exactly like map insert / remove, bump the word of every node they change and obsolete every node they '
             'unlink, so every history generated by them satisfies the reader theorem\'s hypotheses and every valid reader run on it '
-            'is linearizable. NOT a Coq theorem: that the C++ writers perform exactly these commit shapes atomically under their '
-            'write guards (tied only by the store discipline and protocol checks on traces, the sequential correspondence C01 of the '
-            'same node code, and the exploration), hence that every interleaving of try_get/try_insert/try_remove of the '
+            'is linearizable; and the REFINEMENT (Olc/ArtRefine*.v, C03e_*): every successful insert / remove of the sequential model '
+            'Art/ArtModel.v - the model the differential runs tie to the real index, tree shape included - is exactly one of these '
+            'commit shapes on a heap that represents the tree (all nine structural cases), so the states a sequential run goes through '
+            'form a generated history. NOT a Coq theorem: that the C++ writers perform that sequential step atomically under their '
+            'write guards when other threads run (tied by the store discipline and protocol checks on traces and by the '
+            'exploration), hence that every interleaving of try_get/try_insert/try_remove of the '
             'implementation yields a linearizable history. That is decided on the implementation: olc_db run by 2-3 QSBR '
             'threads under the deterministic scheduler, all schedules with at most one (quick) / two (thorough) preemptions per program plus '
             'random schedules, on initial trees forcing every structural change; each execution\'s history goes through the verified '
